@@ -37,7 +37,7 @@ auto d_matrix_product(const At & A, const dAt & dA, const Bt & B, const dBt & dB
   Eigen::Matrix<Scalar, N, dAB_cols> dAB = B.transpose() * dA;
   for (auto i = 0u; i < n; ++i) {
     for (auto j = 0u; j < m; ++j) {
-      dAB.template middleCols<Nvar>(i * nvar, nvar) += A(i, j) * dB.template middleCols<Nvar>(j * Nvar, nvar);
+      dAB.template middleCols<Nvar>(i * nvar, nvar) += A(i, j) * dB.template middleCols<Nvar>(j * nvar, nvar);
     }
   }
   return dAB;
@@ -75,7 +75,7 @@ auto d2_fog(const JfT & Jf, const HfT & Hf, const JgT & Jg, const HgT & Hg)
 
   for (auto i = 0u; i < Jf.outerSize(); ++i) {
     for (Eigen::InnerIterator it(Jf, i); it; ++it) {
-      ret.template block<Nx, Nx>(0, it.row() * nx) += it.value() * Hg.template middleCols<Nx>(it.col() * nx, nx);
+      ret.template block<Nx, Nx>(0, it.row() * nx, nx, nx) += it.value() * Hg.template middleCols<Nx>(it.col() * nx, nx);
     }
   }
 
